@@ -5,6 +5,7 @@ import (
 	"go.sia.tech/core/consensus"
 	"go.sia.tech/core/types"
 	"go.sia.tech/coreutils/chain"
+	"runtime/debug"
 	"verif/harness/internal/chaingen"
 )
 
@@ -32,6 +33,7 @@ func (s *Sim) Call(op Op) (o Obs) {
 			if r := recover(); r != nil {
 				o.Panic = true
 				o.ErrText = fmt.Sprint("panic: ", r)
+				o.Stack = string(debug.Stack())
 			}
 		}()
 		var err error
